@@ -21,6 +21,7 @@ pub enum Case {
     Ser(SerCase),
     Pf(PfCase),
     Thr(ThrCase),
+    Miri(crate::miri::MiriCase),
 }
 
 pub const CLAIMED: [&str; 8] = ["C02", "C03", "C08", "C09", "C11", "C12", "C13", "C18"];
@@ -85,6 +86,7 @@ pub fn exec(case: &Case) -> RunOut {
         Case::Ser(c) => ser::exec(c),
         Case::Pf(c) => pf::exec(c),
         Case::Thr(c) => thr::exec(c),
+        Case::Miri(c) => crate::miri::exec(c),
     }
 }
 
